@@ -86,7 +86,8 @@ CellH0(m, d) == LET p == PSq(d) IN
 \* err: scalar error / function integrals
 \* ------------------------------------------------------------------------------------------------------------------
 ErrSpaces == {"lagrange1", "lagrange2", "crrt", "disc0"}
-ErrMaxNorm(s) == CASE s \in {"lagrange1", "lagrange2"} -> 2 [] s = "crrt" -> 1 [] OTHER -> 0
+\* highest derivative the element can evaluate (Lagrange-1 and the non-conforming element have no Hessians in FEAT)
+ErrMaxNorm(s) == CASE s = "lagrange2" -> 2 [] s \in {"lagrange1", "crrt"} -> 1 [] OTHER -> 0
 AnaSet(m) == LET dim == m.dim IN
   IF m.class = "box" THEN {Term(1, ZeroE(dim)), Term(2, UnitE(dim, 1)), Term(1, E11(dim)), Term(1, ELast2(dim)), Term(1, E21(dim))}
   ELSE {Term(1, ZeroE(dim)), Term(2, UnitE(dim, 1)), Term(1, UnitE(dim, 2))}
@@ -105,6 +106,9 @@ ErrCase(m, j) ==
       ud == IF j.h = << >> THEN << >> ELSE <<Term(1, j.h[1])>>
       dg == 2 * (IF PDeg(d) > 1 THEN PDeg(d) ELSE 1) + 2
   IN [kind |-> "err", space |-> j.s, maxn |-> ErrMaxNorm(j.s), ana |-> j.a, disc |-> j.h, deg |-> dg,
+      \* the variant of the error computer for sub-dimensional (surface) meshes works with reference gradients, which only the
+      \* parametric elements provide (the rotated multilinear element on hypercubes is non-parametric)
+      sub |-> ErrMaxNorm(j.s) >= 1 /\ (j.s = "crrt" => m.shape = "simplex"),
       err |-> ScalarInfo(m, d),
       \* |d|_L1 = int d when d >= 0 on the domain: the discrete part is absent
       l1 |-> IF j.h = << >> THEN <<DInt(m, d)>> ELSE << >>,
@@ -141,7 +145,7 @@ VErrCase(m, j) ==
   LET dim == m.dim
       mxd == CHOOSE x \in {PDeg(VComp(j, k)) : k \in 1..dim} : \A k \in 1..dim : PDeg(VComp(j, k)) <= x
       vp == VortPolys(m, j)
-  IN [kind |-> "verr", space |-> j.s, ana |-> j.a, disc |-> j.h, deg |-> 2 * (IF mxd > 1 THEN mxd ELSE 1) + 2,
+  IN [kind |-> "verr", space |-> j.s, maxn |-> ErrMaxNorm(j.s), ana |-> j.a, disc |-> j.h, deg |-> 2 * (IF mxd > 1 THEN mxd ELSE 1) + 2,
       comp |-> [k \in 1..dim |-> ScalarInfo(m, VComp(j, k))],
       div2 |-> DInt(m, PSq(DivPoly(m, j))),
       vort2 |-> RSum(m, [q \in 1..Len(vp) |-> DInt(m, PSq(vp[q]))], Len(vp))]
@@ -166,12 +170,6 @@ SubEnts(m, cl, e) ==
   ELSE IF e = 0 THEN {{t[i]} : i \in 1..Len(t)}
   ELSE {{t[RC!FaceVerts(m.shape, fd, e, q)[i] + 1] : i \in 1..RC!NVerts(m.shape, e)} : q \in 0..(RC!NFaces(m.shape, fd, e) - 1)}
 ClosureEnts(m, P, e) == UNION {SubEnts(m, cl, e) : cl \in P}
-\* barycentre value of the monomial x^e at the entity with vertex set E:  prod_k (sum_v X_v[k])^e_k / (|E| G)^|e|
-BaryVal(m, E, e) ==
-  LET S == SetSeq(E)
-      sumc(a) == SumA([q \in 1..Len(S) |-> Pt(m, S[q])[a]])
-  IN [n |-> A!ProdA([a \in 1..m.dim |-> PowA(sumc(a), e[a])]), d |-> PowA(Cardinality(E) * MeshG(m), TotDeg(e))]
-
 \* ---- unit filter -------------------------------------------------------------------------------------------------
 UnitSpaces == {"lagrange1", "lagrange2", "crrt"}
 UnitFuncs(s, m) == IF s = "crrt" THEN {ZeroE(m.dim), UnitE(m.dim, 1), UnitE(m.dim, m.dim)}
@@ -191,7 +189,7 @@ UnitCase(m, j) ==
 \* ---- slip filter -------------------------------------------------------------------------------------------------
 SlipSpaces == {"lagrange1", "lagrange2"}
 SlipJobs(m) == {[k |-> "slip", s |-> s, part |-> p] : s \in SlipSpaces, p \in PartNames}
-SlipJobOK(m, j) == LET P == PartsOf(m)[j.part] IN P # {} /\ \A cl \in P : FKind(m, cl) # "other"
+SlipJobOK(m, j) == LET P == PartsOf(m)[j.part] IN P # {} /\ \A cl \in P : FKind(m, cl) \in {"seg", "rect", "rtri"}
 \* nu(v) * den,  den = G^(dim-1) * (2 for triangles: |a x b| = 2 * area)
 SlipDen(m) == PowA(MeshG(m), m.dim - 1) * (IF m.dim = 3 /\ m.shape = "simplex" THEN 2 ELSE 1)
 SlipNu(m, P, v) == LET S == SetSeq({cl \in P : v \in FacetOf(m, cl)}) IN
@@ -256,18 +254,20 @@ BForm(blk, u, v) ==
                                     ELSE A!ScaleT(blk[q].n, A!MulT(A!Mono(u), A!DerivT(blk[q].k, A!Mono(v))))])
 BopSpaces == {"lagrange2"}
 BopMonos(m) == {e \in A!IdMonos("lagrange2", m.shape, m.dim, m.class) : TotDeg(e) <= 2}
-BopJobs(m) == IF m.class # "box" THEN {} ELSE {[k |-> "bop", s |-> s, b |-> b] : s \in BopSpaces, b \in BOps(m.dim)}
+\* one case per row of blocks
+BopJobs(m) == IF m.class # "box" THEN {}
+              ELSE UNION {{[k |-> "bop", s |-> s, b |-> b, r |-> r] : r \in 1..BRows(m.dim, b)} : s \in BopSpaces, b \in BOps(m.dim)}
 BopCase(m, j) ==
   LET dim == m.dim
       U == SetSeq(BopMonos(m))
       V == SetSeq({e \in BopMonos(m) : TotDeg(e) <= 1})
       half(x) == [n |-> x.n, d |-> 2 * x.d]
-  IN [kind |-> "bop", space |-> j.s, op |-> j.b, rows |-> BRows(dim, j.b), cols |-> BCols(dim, j.b), deg |-> 5,
-      blocks |-> [r \in 1..BRows(dim, j.b) |-> [c \in 1..BCols(dim, j.b) |->
-                    LET blk == BBlock(dim, j.b, r, c) IN
+  IN [kind |-> "bop", space |-> j.s, op |-> j.b, rows |-> BRows(dim, j.b), cols |-> BCols(dim, j.b), deg |-> 5, row |-> j.r - 1,
+      blocks |-> [c \in 1..BCols(dim, j.b) |->
+                    LET blk == BBlock(dim, j.b, j.r, c) IN
                     [zero |-> blk = << >>,
                      ids |-> A!FlatA([p \in 1..Len(U) |-> [q \in 1..Len(V) |->
-                               [u |-> U[p], v |-> V[q], val |-> half(DInt(m, BForm(blk, U[p], V[q])))]]])]]]]
+                               [u |-> U[p], v |-> V[q], val |-> half(DInt(m, BForm(blk, U[p], V[q])))]]])]]]
 
 \* Laplace-Beltrami on a mesh of full dimension = Laplace;  the sub-dimensional H1 error = the H1 error (kind err, route "sub")
 LbJobs(m) == {[k |-> "lb", s |-> s] : s \in {"lagrange1", "lagrange2"}}
@@ -294,6 +294,7 @@ Jobs(m) ==
 Init ==
   /\ \E k \in 1..Len(Catalogue) : \E v \in 0..(NVariants - 1) :
        /\ Catalogue[k].t <= Tier /\ Catalogue[k].m.name \in MeshSel
+       /\ (Catalogue[k].m.dim = 2 \/ Catalogue[k].m.class = "box")           \* domain moments: unit boxes, or 2D straight-sided
        /\ msh = Variant(Catalogue[k].m, v) /\ vk = v
   /\ job \in Jobs(msh)
 Next == UNCHANGED vars
